@@ -14,17 +14,17 @@ import (
 // truth value by the documented semantics (exact int/float comparison, a bare path is an existence test,
 // some choice of a multi-valued path). The implementation is never asked what a script means.
 type Scr struct {
-	Kind string `json:"k"`           // "c" constant, "p" path (@ + fragments), "1" unary, "2" binary
-	Op   string `json:"op,omitempty"` // eq neq lt gt lte gte or and not
-	A    *Scr   `json:"a,omitempty"`
-	B    *Scr   `json:"b,omitempty"`
+	Kind string     `json:"k"`            // "c" constant, "p" path (@ + fragments), "1" unary, "2" binary
+	Op   string     `json:"op,omitempty"` // eq neq lt gt lte gte or and not
+	A    *Scr       `json:"a,omitempty"`
+	B    *Scr       `json:"b,omitempty"`
 	P    []fragJSON `json:"p,omitempty"`
-	CK   string  `json:"ck,omitempty"` // constant kind: i f s b n
-	I    int64   `json:"i,omitempty"`
-	F    float64 `json:"f,omitempty"`
-	FNeg bool    `json:"fneg,omitempty"` // the float is -0.0 (JSON has no negative zero)
-	S    string  `json:"s,omitempty"`
-	Bv   bool    `json:"b_,omitempty"`
+	CK   string     `json:"ck,omitempty"` // constant kind: i f s b n
+	I    int64      `json:"i,omitempty"`
+	F    float64    `json:"f,omitempty"`
+	FNeg bool       `json:"fneg,omitempty"` // the float is -0.0 (JSON has no negative zero)
+	S    string     `json:"s,omitempty"`
+	Bv   bool       `json:"b_,omitempty"`
 	path Path
 }
 
@@ -33,11 +33,11 @@ func ki(i int64) *Scr    { return &Scr{Kind: "c", CK: "i", I: i} }
 func kf(f float64) *Scr {
 	return &Scr{Kind: "c", CK: "f", F: f, FNeg: f == 0 && math.Signbit(f)}
 }
-func ks(s string) *Scr         { return &Scr{Kind: "c", CK: "s", S: s} }
-func kb(b bool) *Scr           { return &Scr{Kind: "c", CK: "b", Bv: b} }
-func knull() *Scr              { return &Scr{Kind: "c", CK: "n"} }
+func ks(s string) *Scr              { return &Scr{Kind: "c", CK: "s", S: s} }
+func kb(b bool) *Scr                { return &Scr{Kind: "c", CK: "b", Bv: b} }
+func knull() *Scr                   { return &Scr{Kind: "c", CK: "n"} }
 func op2(op string, a, b *Scr) *Scr { return &Scr{Kind: "2", Op: op, A: a, B: b} }
-func not(a *Scr) *Scr          { return &Scr{Kind: "1", Op: "not", A: a} }
+func not(a *Scr) *Scr               { return &Scr{Kind: "1", Op: "not", A: a} }
 
 var opText = map[string]string{"eq": "==", "neq": "!=", "lt": "<", "gt": ">", "lte": "<=", "gte": ">=", "or": "||", "and": "&&"}
 
@@ -379,11 +379,11 @@ func comparisonBox(emit func(p Path, t *Node)) int {
 					}
 					return op2(op, p, c)
 				}
-				emit(Path{fFilter(cmp(at()))}, flat)                                               // $[?(@ op c)]
-				emit(Path{fFilter(cmp(at(fChild("p")))), fChild("x")}, nArr(objs...))            // $[?(@.p op c)].x
-				emit(Path{fWild(), fChild("q"), fFilter(cmp(at()))}, nArr(nested...))             // $[*].q[?(@ op c)]
+				emit(Path{fFilter(cmp(at()))}, flat)                                                   // $[?(@ op c)]
+				emit(Path{fFilter(cmp(at(fChild("p")))), fChild("x")}, nArr(objs...))                  // $[?(@.p op c)].x
+				emit(Path{fWild(), fChild("q"), fFilter(cmp(at()))}, nArr(nested...))                  // $[*].q[?(@ op c)]
 				emit(Path{fFilter(at(fChild("q"), fFilter(cmp(at())))), fChild("x")}, nArr(nested...)) // $[?(@.q[?(@ op c)])].x
-				emit(Path{fFilter(not(cmp(at())))}, flat)                                          // $[?(!(@ op c))]
+				emit(Path{fFilter(not(cmp(at())))}, flat)                                              // $[?(!(@ op c))]
 				n += 5
 			}
 		}
